@@ -51,7 +51,8 @@ MODELLED_NOT_VERIFIED = [
     "and of well-formed not-rooted trees whose ENCODED seed has >= 3 children (treeRecOf_unrooted_hts: every drawing outside the known-finding "
     "class 'basal bifurcation survives'); Good (toH t) = distinct leaf taxa is assumed, not derived from the parser; SplitDistribution.update IS an event of "
     "the cache model (`Ev.merge`, frequencies proved = counting the concatenation); that the merged VALUE LISTS and key order equal those of "
-    "sequential counting is correspondence only (`hist` summaries after merges)",
+    "sequential counting is proved at lookup level for splits of the merged-in trees (merge_lengths_counted); the KEY ORDER of the merged "
+    "dicts is correspondence only (`hist` summaries after merges)",
 ]
 EXPLANATION = ("Theorems (all about the definitions the driver runs): frequency = weighted count / normaliser, 0 for absent splits; "
                "majority_consensus_reaches/_exact: rooted samples, threshold > 1/2 -> the consensus clades are exactly the star's plus the "
@@ -67,7 +68,12 @@ EXPLANATION = ("Theorems (all about the definitions the driver runs): frequency 
                "freq_never_stale (over every history of additions / merges through update / refused offers / frequency queries / summary "
                "queries / age-table reads the cached tables answer as if recomputed from the current counts) + merge_freq_spec (a "
                "distribution that counted ts1 and is updated from one that counted ts2 reports the frequencies, tree count and weight sum of "
-               "one that counted ts1 ++ ts2); lengths_spec (the summarised "
+               "one that counted ts1 ++ ts2) + merge_lengths_spec / merge_lengths_counted (value lists after a merge: the receiver's list followed by "
+               "the other's; for counted distributions the split's values over ts1 then ts2) + restore_rooted_topology / "
+               "restore_unrooted_topology (restoreTree = C01 build on the record's stored splits is the input tree up to child order and "
+               "unifurcations; not rooted: same canonical re-seeding, >= 3 taxa) + mcc_tree_topology (rooted samples over exactly the "
+               "namespace members: mccTree on the reported index is the input tree at that index, whose score is maximal; the driver "
+               "prints it in section `mcctrees`, which the harness does not compare yet — MCC topology is judged by the oracle); lengths_spec (the summarised "
                "list of a split is exactly its values over the counted records, in order); freq_weighted_contains (Nodup records: weighted "
                "fraction of the trees containing the split); majority_consensus_reaches_ns + driver_majority_exact (namespaces with removed "
                "members: all only has to contain the members' bits; composed with treeRecOf, countAll and the driver's own rooting flag; "
